@@ -30,7 +30,12 @@ def excerpt_worker(case):
     g_err = sourcer.Grammar('start = /(?s).{%d}/ >> Fail()\n' % N)
     g_part = sourcer.Grammar('start = /(?s).{%d}/\n' % N)
     g_bytes = sourcer.Grammar('start = b/(?s).{%d}/ >> Fail()\n' % N)
+    text = None
     for sc in case['subs']:
+        # the previous text is released before the next one is built: a later text of the same length (the
+        # sub-cases are ordered by length) tends to live at the same address but has another line layout -
+        # positions must not depend on what was parsed before
+        del text
         text = make_text(sc['P'], sc['L'], sc['last'])
         res = {}
         for kind, g, t in (('ParseError', g_err, text), ('PartialParseError', g_part, text),
@@ -98,6 +103,10 @@ def run(chk):
     byN = {}
     for c in cases:
         byN.setdefault(c['index'], []).append(c)
+    def total(sc):
+        return sc['P'] * (PREF + 1) + sc['L'] + (0 if sc['last'] else 4)
+    for subs in byN.values():
+        subs.sort(key=lambda sc: (total(sc), sc['P'], sc['last']))
     wcases = [{'id': i, 'N': n, 'subs': subs} for i, (n, subs) in enumerate(sorted(byN.items()))]
     recs = engine.run_real(wcases, fn='excerpt_worker', batch=2)
     regimes = {}
